@@ -28,8 +28,8 @@ LOGICAL_CASES = [
     ({"type": "int", "logicalType": "time-millis"}, [_dt.time(23, 59, 59, 999000), 0], ["x", 2**31]),
     ({"type": "long", "logicalType": "time-micros"}, [_dt.time(0, 0, 0, 1), 86399999999], [None, 1.5]),
     ({"type": "string", "logicalType": "uuid"}, [_uuid.UUID(int=5), "00000000-0000-0000-0000-000000000005"], [5, None, b"x"]),
-    ({"type": "bytes", "logicalType": "decimal", "precision": 6, "scale": 2}, [_dec.Decimal("1234.56"), _dec.Decimal("-0.01"), b"\x01"], ["1.5", 1.5, None, _dec.Decimal("12345.67"), _dec.Decimal("0.001")]),
-    ({"type": "fixed", "name": "D8", "size": 8, "logicalType": "decimal", "precision": 10, "scale": 3}, [_dec.Decimal("1234567.891"), b"\x00" * 8], [b"\x00", "x", 5, _dec.Decimal("12345678901"), _dec.Decimal("0.0001")]),
+    ({"type": "bytes", "logicalType": "decimal", "precision": 6, "scale": 2}, [_dec.Decimal("1234.56"), _dec.Decimal("-0.01"), b"\x01"], ["1.5", 1.5, None, _dec.Decimal("12345.67"), _dec.Decimal("0.001"), _dec.Decimal("NaN"), _dec.Decimal("-Infinity")]),
+    ({"type": "fixed", "name": "D8", "size": 8, "logicalType": "decimal", "precision": 10, "scale": 3}, [_dec.Decimal("1234567.891"), b"\x00" * 8], [b"\x00", "x", 5, _dec.Decimal("12345678901"), _dec.Decimal("0.0001"), _dec.Decimal("Infinity"), _dec.Decimal("sNaN")]),
     ({"type": "fixed", "name": "D2", "size": 2, "logicalType": "decimal", "precision": 4, "scale": 2}, [_dec.Decimal("99.99"), _dec.Decimal("-99.99")], [_dec.Decimal("9999"), _dec.Decimal("-9999"), _dec.Decimal("1.234")]),
     ({"type": "record", "name": "LR", "fields": [{"name": "d", "type": ["null", {"type": "int", "logicalType": "date"}], "default": None},
                                                   {"name": "ts", "type": {"type": "array", "items": {"type": "long", "logicalType": "timestamp-millis"}}},
